@@ -105,6 +105,38 @@ fn gen_vec<T: Elem>(rng: &mut Rng) -> Vec<T> {
     v
 }
 
+/// An iterator with the default `size_hint` (0, None).
+struct NoHint<T>(std::vec::IntoIter<T>);
+impl<T> Iterator for NoHint<T> {
+    type Item = T;
+    fn next(&mut self) -> Option<T> {
+        self.0.next()
+    }
+}
+
+/// Feed `v` to `f` through one of several iterator shapes (exact size hint, lower bound 0, no hint,
+/// chained, flattened, reversed twice, lazily produced): a set must not care how its elements arrive.
+fn with_iter_shape<T: Elem, R>(v: Vec<T>, shape: usize, f: impl FnOnce(&mut dyn Iterator<Item = T>) -> R) -> (R, &'static str) {
+    match shape % 8 {
+        0 => (f(&mut v.into_iter()), "vec::IntoIter"),
+        1 => (f(&mut v.into_iter().filter(|_| true)), "filter (lower size hint 0)"),
+        2 => (f(&mut NoHint(v.into_iter())), "custom iterator without size hint"),
+        3 => {
+            let mid = v.len() / 2;
+            let mut a = v;
+            let b = a.split_off(mid);
+            (f(&mut a.into_iter().chain(b)), "chain")
+        }
+        4 => (f(&mut v.into_iter().map(|x| vec![x]).flat_map(|x| x)), "flat_map"),
+        5 => {
+            let mut it = v.into_iter();
+            (f(&mut std::iter::from_fn(move || it.next())), "iter::from_fn")
+        }
+        6 => (f(&mut v.into_iter().rev().rev().peekable()), "rev.rev.peekable"),
+        _ => (f(&mut v.into_iter().take_while(|_| true).fuse()), "take_while.fuse"),
+    }
+}
+
 /// Check one live set against its model; returns a description of the first disagreement.
 fn check_set<T: Elem>(s: &Oset<T>, m: &BTreeSet<T>) -> Option<String> {
     let borrowed: Vec<&T> = s.into_iter().collect();
@@ -145,9 +177,12 @@ fn run_history<T: Elem>(w: &mut Worker, rng: &mut Rng, n_ops: usize) {
             }
             1 => {
                 let v: Vec<T> = gen_vec(rng);
-                log.push(format!("s{i} = Oset::from_iter({v:?})"));
                 models[i] = v.iter().cloned().collect();
-                sets[i] = v.into_iter().collect();
+                let shape = rng.below(8);
+                let dbg = format!("{v:?}");
+                let (set, how) = with_iter_shape(v, shape, |it| it.collect::<Oset<T>>());
+                log.push(format!("s{i} = Oset::from_iter({dbg} via {how})"));
+                sets[i] = set;
             }
             2 | 3 => {
                 let x = T::gen(rng);
@@ -157,9 +192,12 @@ fn run_history<T: Elem>(w: &mut Worker, rng: &mut Rng, n_ops: usize) {
             }
             4 => {
                 let v: Vec<T> = gen_vec(rng);
-                log.push(format!("s{i}.extend({v:?})"));
                 models[i].extend(v.iter().cloned());
-                sets[i].extend(v);
+                let shape = rng.below(8);
+                let dbg = format!("{v:?}");
+                let set = &mut sets[i];
+                let (_, how) = with_iter_shape(v, shape, |it| set.extend(it));
+                log.push(format!("s{i}.extend({dbg} via {how})"));
             }
             5 => {
                 let j = rng.below(k);
@@ -291,7 +329,7 @@ impl Engine for OsetEngine {
         json!({"class": "oset-history", "batch": idx, "sub": sub})
     }
     fn rule(&self, _prop: &str) -> String {
-        "histories of 5-200 operations (new, from_iter, insert, extend, clone, contains, extend-from-other-set, pair comparison) over 1-4 live sets, element types u8 (8 values), i64 (with extremes), (u8,String), Reverse<u16>, kiki's Symbol, StateItem and Transition; inputs with duplicates, ascending and descending runs, empties. After every operation every live set is compared with a std BTreeSet model: borrowed, owned and deref iteration strictly increasing and equal to the model, contains, len; pair comparisons check == against set equality, cmp against sets rebuilt along different histories from the same elements, and the order laws (antisymmetry, Equal iff equal). One evaluation = one history (or one pipeline run with the H3 invariant hook armed on the real element types). Distinct non-trivial = distinct histories with >= 10 operations.".into()
+        "histories of 5-200 operations (new, from_iter, insert, extend, clone, contains, extend-from-other-set, pair comparison; from_iter and extend receive their elements through 8 iterator shapes: exact size hint, lower bound 0, no hint, chain, flat_map, from_fn, peekable, fuse) over 1-4 live sets, element types u8 (8 values), i64 (with extremes), (u8,String), Reverse<u16>, kiki's Symbol, StateItem and Transition; inputs with duplicates, ascending and descending runs, empties. After every operation every live set is compared with a std BTreeSet model: borrowed, owned and deref iteration strictly increasing and equal to the model, contains, len; pair comparisons check == against set equality, cmp against sets rebuilt along different histories from the same elements, and the order laws (antisymmetry, Equal iff equal). One evaluation = one history (or one pipeline run with the H3 invariant hook armed on the real element types). Distinct non-trivial = distinct histories with >= 10 operations.".into()
     }
     fn floors(&self, _prop: &str, _tier: Tier, agg: &Agg) -> Vec<String> {
         let mut out = vec![];
